@@ -198,7 +198,7 @@ def opt_configs(k_exact=None, k_max=1):
 def list_cases(block):
     nt, opt, maxlen = block["nt"], block["opt"], block["maxlen"]
     for order in block["orders"]:
-        for nf in range(1, 5):
+        for nf in block["nfs"]:
             P = pool(nt, nf)
             for n in range(0, maxlen + 1):
                 if opt["values"] == "short" and n == 0:
@@ -208,6 +208,8 @@ def list_cases(block):
                            "o": {"values": opt["values"], "fill": opt["fill"], "dtype": opt["dtype"],
                                  "contents": opt["contents"]}}
 
+
+QUICK_DEVIATION_SIZE = 3  # quick: non-default option configurations of the list space use sizes {1..3}^2
 
 SHARDS = {"quick": {"box": 40, "tri": 12, "misc": 6}, "thorough": {"box": 64, "tri": 32, "misc": 8}}
 SPACE_FN = {"box": box_cases, "tri": tri_cases, "misc": misc_cases}
@@ -219,17 +221,21 @@ def blocks(tier):
         n = SHARDS[tier][sp]
         out += [{"sp": sp, "tier": tier, "shard": i, "of": n} for i in range(n)]
     if tier == "quick":
-        for opt in opt_configs(k_max=1):
-            for nt in range(1, 5):
-                out.append({"sp": "list", "tier": tier, "opt": opt, "nt": nt, "orders": list(ORDERS), "maxlen": 2})
+        for j, opt in deviations(OPT_AXES, 1):
+            m = 4 if j == 0 else QUICK_DEVIATION_SIZE
+            for nt in range(1, m + 1):
+                out.append({"sp": "list", "tier": tier, "opt": opt, "nt": nt, "nfs": list(range(1, m + 1)),
+                            "orders": list(ORDERS), "maxlen": 2})
     else:
         for opt in opt_configs(k_max=1):
             for nt in range(1, 5):
                 for order in ORDERS:
-                    out.append({"sp": "list", "tier": tier, "opt": opt, "nt": nt, "orders": [order], "maxlen": 3})
+                    out.append({"sp": "list", "tier": tier, "opt": opt, "nt": nt, "nfs": [1, 2, 3, 4],
+                                "orders": [order], "maxlen": 3})
         for opt in opt_configs(k_exact=2, k_max=2):
             for nt in range(1, 5):
-                out.append({"sp": "list", "tier": tier, "opt": opt, "nt": nt, "orders": list(ORDERS), "maxlen": 2})
+                out.append({"sp": "list", "tier": tier, "opt": opt, "nt": nt, "nfs": [1, 2, 3, 4],
+                            "orders": list(ORDERS), "maxlen": 2})
     return out
 
 
@@ -251,11 +257,12 @@ def bounds(tier):
                      "time intervals (all edge pairs), time stamps (all positions), points (all positions^2), 2-point "
                      "line strings over 6 anchor points}" % (["A", "D"] if q else ["A", "B", "C", "D"]),
         "FULL list": "every ordered list (with repetition, hence both orders of every pair) of length 0..%d over the "
-                     "10-geometry pool x size {1..4}^2 x order x all_touched" % (2 if q else 3),
+                     "10-geometry pool x size {1..4}^2 x order x all_touched, at the default options" % (2 if q else 3),
         "DEVIATION list options": "option axes cfg{A,B,C,D}, values{list,scalar,tuple,omit,short,long}, fill{0,-1}, "
                                   "dtype{float32,int16}, contents{g1,g2}: every assignment within %s of the default "
-                                  "(A, list, 0, float32, g1)" % ("1 deviation" if q else
-                                                                 "1 deviation (lists <= 3), 2 deviations (lists <= 2)"),
+                                  "(A, list, 0, float32, g1), each x the same full list product x order x all_touched x "
+                                  "size %s" % (("1 deviation", "{1..3}^2") if q else
+                                               ("1 deviation (lists <= 3), exactly 2 deviations (lists <= 2)", "{1..4}^2")),
         "single-geometry options": "defaults only (values, fill, dtype not passed), contents g1",
         "pool": pool(3, 2),
         "pool_note": "pool shown for nt=3, nf=2; T, F, ceil(T/2) scale with the template",
@@ -391,7 +398,7 @@ def run_case(case, singles=None):
     specs = case["g"]
     n = len(specs)
     kinds = [k for k, _ in specs]
-    gname = "+".join(sorted(set(kinds))) or "none"
+    gname = kinds[0] if n == 1 else ("none" if n == 0 else "list")  # violation class: single kind / list
     reals = [real_coords(k, c, cfg) for k, c in specs]
     geoms = [make_geometry(k, rc) for (k, _), rc in zip(specs, reals)]
     shapes = [rm.mapped_shape(k, rc, tcoords, fcoords, MAXF) for (k, _), rc in zip(specs, reals)]
@@ -425,7 +432,7 @@ def run_case(case, singles=None):
         kw = dict(base_kw, all_touched=at)
         r = call(geoms, tpl, kw)
         calls += 1
-        cls = {"fn": FN, "kind": layout, "geoms": gname, "all_touched": at}
+        cls = {"fn": FN, "kind": layout, "geom": gname}
         untouched_check({"fn": FN, "kind": layout})
 
         if vals is None:  # wrong-length value list: must be rejected before anything else
@@ -441,7 +448,7 @@ def run_case(case, singles=None):
             elif n == 0:
                 c = {"fn": FN, "kind": "empty_list", "layout": layout, "exc": r[1]}
             else:
-                c = {"fn": FN, "kind": "exception", "layout": layout, "exc": r[1], "geoms": gname}
+                c = {"fn": FN, "kind": "exception", "layout": layout, "exc": r[1], "geom": gname}
             out.fail("axes_are_templates", list(r), "an array over the template's time and frequency coordinates", c,
                      {"all_touched": at})
             for o in ("cells_equal_model" if not at else "all_touched_superset", "fill_elsewhere", "dtype_is_requested"):
@@ -503,7 +510,7 @@ def run_case(case, singles=None):
                 okcf = bool((arrf == cf).all())
             else:
                 okcf = bool(((arrf != fill) | (cf == fill)).all())
-            out.expect("bbox_closed_form", okcf, arr.tolist(), cf.tolist(), {"fn": FN, "kind": layout, "all_touched": at},
+            out.expect("bbox_closed_form", okcf, arr.tolist(), cf.tolist(), {"fn": FN, "kind": layout},
                        {"all_touched": at, "boxes": reals})
 
         # overwrite order: the list result is the sequential overwrite of the single-geometry results
@@ -539,7 +546,7 @@ def run_case(case, singles=None):
         out.expect("all_touched_superset", bool((marked[True] | ~marked[False]).all()),
                    marked[True].astype(int).tolist(), "superset of " + str(marked[False].astype(int).tolist()),
                    {"fn": FN, "kind": "line_string_all_touched"} if "line" in kinds else
-                   {"fn": FN, "kind": layout, "geoms": gname, "all_touched": "pair"})
+                   {"fn": FN, "kind": layout, "geom": gname, "pair": "all_touched False vs True"})
     elif vals is not None:
         out.vac("all_touched_superset")
 
